@@ -122,7 +122,7 @@ class AxiHarness(Harness):
 
     # env: (aw_next, aw_hold, w_next, w_hold, ar_next, ar_hold, b_got, r_burst, r_beat, nwd, rs, final_checked)
     def env0(self):
-        return (0, 0, 0, 0, 0, 0, 0, 0, 0, 0, self.resp.init(), 0, 0)
+        return (0, 0, 0, 0, 0, 0, 0, 0, 0, 0, self.resp.init(), 0, 0, 0)
 
     def _read_outstanding(self, E, k):
         arn, rb = E[4], E[7]
@@ -130,7 +130,7 @@ class AxiHarness(Harness):
 
     def opts(self, E):
         """presentable options per channel, most cooperative first"""
-        awn, awh, wn, wh, arn, arh, bg, rb, rbeat, nwd, rs, h_lead, h_behind = E
+        awn, awh, wn, wh, arn, arh, bg, rb, rbeat, nwd, rs, h_lead, h_behind, h_resp = E
         aw_opts = (1,) if awh else (0,)
         if not awh and awn < len(self.writes) and not any(self._read_outstanding(E, k) for k in self.w_blockers[awn]):
             aw_opts = (1, 0)
@@ -153,7 +153,7 @@ class AxiHarness(Harness):
         return "aw=%d w=%d ar=%d bready=%d rready=%d | cmd.ready=%d serve=%s" % (a, w, r, br, rr, rb, list(serve))
 
     def drive(self, S, E, ch):
-        awn, awh, wn, wh, arn, arh, bg, rb, rbeat, nwd, rs, h_lead, h_behind = E
+        awn, awh, wn, wh, arn, arh, bg, rb, rbeat, nwd, rs, h_lead, h_behind, h_resp = E
         a, w, r, br, rr, rch = ch
         I = list(self.base)
         if a:
@@ -170,7 +170,7 @@ class AxiHarness(Harness):
         return tuple(I)
 
     def observe(self, S, E, ch, I, O, S2):
-        awn, awh, wn, wh, arn, arh, bg, rb, rbeat, nwd, rs, h_lead, h_behind = E
+        awn, awh, wn, wh, arn, arh, bg, rb, rbeat, nwd, rs, h_lead, h_behind, h_resp = E
         a, w, r, br, rr, rch = ch
         # history flags used to fingerprint the two recorded read-modify-write findings (sticky)
         if w:
@@ -178,7 +178,10 @@ class AxiHarness(Harness):
             if sb != 0xf:
                 if awn <= j and not a: h_lead = 1                        # partial-strobe data presented before its address
                 if nwd < wn: h_behind = 1                                 # ... while earlier beats are still buffered in the bridge
-        self._hist = dict(rmw=self.rmw, w_led_aw=bool(h_lead), partial_behind_buffered=bool(h_behind))
+        # completed-but-unanswered write bursts beyond what the response buffer holds (master stalls B): from then on the recorded
+        # "response pushed without checking for room" finding is in effect (lost, overwritten or mis-identified responses)
+        if sum(1 for cb in self.cum_beats if nwd >= cb) - bg > self.depth: h_resp = 1
+        self._hist = dict(rmw=self.rmw, w_led_aw=bool(h_lead), partial_behind_buffered=bool(h_behind), b_stalled_beyond_resp_buffer=bool(h_resp))
         try:
             rs2, evs = self.resp.observe(rs, rch, S, I, O)
         except Violation as v:
@@ -233,13 +236,13 @@ class AxiHarness(Harness):
         coop = ch == (ao[0], wo[0], ro[0], 1, 1, self.resp.default_choice(rs))
         if coop and not done: ev |= EV_OUT
         if prog: ev |= EV_PROG
-        return (awn, awh, wn, wh, arn, arh, bg, rb, rbeat, nwd, rs2, h_lead, h_behind), ev
+        return (awn, awh, wn, wh, arn, arh, bg, rb, rbeat, nwd, rs2, h_lead, h_behind, h_resp), ev
 
     def lasso_detail(self, label, cycle_states, loop_choices):
         """fingerprint of a hang: which channel is owed what"""
         S, E = cycle_states[0]
         awn, awh, wn, wh, arn, arh, bg, rb, rbeat, nwd = E[:10]
-        d = dict(rmw=self.rmw, w_led_aw=bool(E[11]), partial_behind_buffered=bool(E[12]))
+        d = dict(rmw=self.rmw, w_led_aw=bool(E[11]), partial_behind_buffered=bool(E[12]), b_stalled_beyond_resp_buffer=bool(E[13]))
         all_data_in_memory = awn == len(self.writes) and wn == len(self.wbeats) and nwd >= len(self.wbeats)
         if all_data_in_memory and bg < len(self.writes):
             d["cause"] = "b_response_lost"; d["write_bursts_exceed_buffer_depth"] = len(self.writes) > self.depth
@@ -290,6 +293,8 @@ def configs(tier):
         add("d2-streamport", "2w2r", decoupled=True)
         for s in ("incr2", "single-partial", "full-then-partial", "partial-then-full", "fixed2"):
             add("rmw-d2", s, rmw=True)
+        add("d2-base0x10", "2w2r", base_address=0x10)                                # second burst lies beyond 2*base (base bit clear in its address)
+        add("d1", "incr4-strb", depth=1); add("d1", "2w2r", depth=1); add("rmw-d1", "full-then-partial", depth=1, rmw=True)     # minimal buffers (a stream.Buffer, not a FIFO)
         add("rmw-d2-base0x40", "single-partial", rmw=True, base_address=0x40)       # base bit inside the native address range
         add("rmw-d2-base0x40", "full-then-partial", rmw=True, base_address=0x40)
     else:
@@ -303,6 +308,9 @@ def configs(tier):
         for s in ("incr4-strb", "narrow-incr4", "unaligned-incr2", "2w2r-overlap"):
             add("rmw-d2-base0x40", s, rmw=True, base_address=0x40)
         add("d2-fastmem", "incr4-strb", wmin=1, rmin=1)
+        for sc in ("wrap4", "narrow-incr4", "3w3r", "r-then-w"):
+            add("d1", sc, depth=1)
+        add("rmw-d2-base0x10", "2w2r-overlap", rmw=True, base_address=0x10); add("d2-base0x10", "3w3r", base_address=0x10)
     # base address shifts the scenario's AXI addresses
     out = []
     for name, d, ms in cs:
